@@ -1456,7 +1456,8 @@ def bounded(tier, seed):
     from bounded import c02 as b
     out = []
     for name, f in (('seeded-runs-end-to-end', b.run), ('sort-all-small-dags', b.run_sort), ('f14-two-priors-rebuilt', b.run_f14),
-                    ('pool-stores-one-stochastic-node', b.run_pool_partial), ('pool-result-keys', b.run_outputs_shared)):
+                    ('pool-stores-one-stochastic-node', b.run_pool_partial), ('pool-result-keys', b.run_outputs_shared),
+                    ('context-history', b.run_context_history), ('sort-across-hash-seeds', b.run_sort_hash_seeds)):
         try:
             out.append(f(tier, seed))
         except Exception as e:          # the tree under analysis crashed inside a probe: a failing input, not a checker error
